@@ -75,12 +75,14 @@ def Handshake.isValid (h : Handshake) : Except PyErr Bool :=
 def validateExtra : Headers → Except PyErr Headers
   | [] => .ok []
   | x :: rest =>
-    if x.1 == "sec-websocket-protocol".b || Bytes.startsWith ":".b x.1 then .error .exception
-    else do
-      let n ← validatePartBytes x.1
-      let v ← validatePartBytes x.2
-      let r ← validateExtra rest
-      pure ((n, v) :: r)
+    match validatePartBytes x.1 with
+    | .error e => .error e
+    | .ok n =>
+      if n == "sec-websocket-protocol".b || nameRefused n then .error .exception
+      else do
+        let v ← validatePartBytes x.2
+        let r ← validateExtra rest
+        pure ((n, v) :: r)
 
 /-- `Handshake.accept(subprotocol, additional_headers)`: status and headers, or the `Exception` raised.
     `token` is `generate_accept_token`, `extAccepts` the result of `server_extensions_handshake` (library values). -/
@@ -368,7 +370,10 @@ def handle (s : S) : In → S × List AppMsg × List Ev × Option PyErr
     if s.closed then (s, [], [], none)
     else match i with
       | .data evs =>
-        if !s.hs.accepted then ({ s with closed := true }, [], errorResponse 400, none)
+        if !s.hs.accepted then
+          -- answered (400) only while nothing has been sent for the handshake; once a rejection has been started or
+          -- sent the data is ignored (a second response would be refused by h11: F40)
+          if s.st = .handshake then ({ s with closed := true }, [], errorResponse 400, none) else (s, [], [], none)
         else handleEvents s evs
       | .streamClosed =>
         let code := if s.st = .httpClosed ∨ s.st = .closed then 1000 else s.clientCloseCode.getD 1006
